@@ -653,6 +653,8 @@ type c16OracleArgs struct {
 	// Sites: also the second call site (load with SkipResolveEnvironment + Project method) and the three layouts in
 	// which the services are written in another directory (included file, extends.file whole / split)
 	Sites bool `json:"sites,omitempty"`
+	// SiteLayout: the one layout run with Sites ("" = all three; the generators rotate)
+	SiteLayout string `json:"site_layout,omitempty"`
 }
 
 func (o c16OracleArgs) toArgs(discard bool) c16Args {
@@ -771,6 +773,9 @@ func c16RealOracle(raw json.RawMessage) any {
 			a.Methods = true
 			out["load_methods"] = c16RealLoad(a)
 			for _, layout := range []string{"include", "extends", "extends-split"} {
+				if o.SiteLayout != "" && o.SiteLayout != layout {
+					continue
+				}
 				a := o.toArgs(o.Discard)
 				a.Layout = layout
 				out["load_"+layout] = c16RealLoad(a)
